@@ -1017,11 +1017,12 @@ def generate(rng: random.Random, profile: Optional[Dict[str, Any]] = None) -> Di
             rng.shuffle(case["paths"])
             case["tree_meta"] = {"clients": tree["clients"]}
             case["safe"] = rng.random() < 0.3
-            if rng.random() < 0.2:
-                # shape (ii): libraries and clients formatted together, safe mode keeps the libraries' surface
-                case["safe"] = True
-                case["paths"] = ["<ROOT>"]
-                case["tree_meta"]["whole_tree"] = True
+            # Shape (ii) of DESIGN 4/C18 (libraries and clients formatted together in safe mode) was built and
+            # withdrawn: safe mode does not keep a library's re-exports (an import that the module itself does
+            # not use is removed, so 'from chain2 import deep_func' vanishes from a re-export-only module and
+            # clients of it break).  That is about the library's surface (C07 / C08), not about a module's own
+            # names resolving to the same objects, so judging it here would demand more than C18 states.
+            rng.random()  # keep the draw so seeds map to the same cases as before
             if rng.random() < 0.35:
                 # an earlier run of the same process formatted *another* project (other directory) whose
                 # modules have the same names but another layout
